@@ -56,8 +56,19 @@ def run_unit(job):
     wcap = opts["witness_cap"]
     phase = (opts["seed"] + idx) % every
 
+    def wrap_deep(x):
+        if isinstance(x, str):
+            return core.S(x)
+        if isinstance(x, dict):
+            return {k: wrap_deep(v) for k, v in x.items()}
+        if isinstance(x, (list, tuple)):
+            return [wrap_deep(v) for v in x]
+        return x
+
+    sunit = wrap_deep(unit)
+
     def body(e):
-        ctx = api.Ctx(unit, e)
+        ctx = api.Ctx(sunit, e)
         cur[0] = ctx
         fn(ctx)
 
